@@ -14,6 +14,8 @@ CONSTANTS
     BoolOn = {"and", "or", "not"}
     IteOn = TRUE
     CallOn = {"sub2", "subxy", "ratio", "pick", "loc", "nest", "kmul"}
+    AugOn = {"add", "mul"}
+    LoopOn = TRUE
     MaxToks = 100
     MinStmts = 3
     MaxStmts = 4
@@ -23,4 +25,4 @@ CONSTANTS
     EqOk = TRUE
     CheckPW = TRUE
     EmitOn = TRUE
-INVARIANTS Emit PWTheorem LibTheorem WellFormedAlways
+INVARIANTS EmitLib PWTheorem LibTheorem WellFormedAlways
